@@ -596,7 +596,13 @@ def gen_prog_B(rng):
             form, syntax, kind = "await", "classic", "wf"
         else:
             kind = call_kind(rng, tgt, 0.08)
-            args = gen_args(rng, tgt, mvars + (gnames if use_globals else []), kind)
+            # A call argument may mention a global only when the callee is a leaf flow: the caller's
+            # FlowStarted match is evaluated when the callee first waits at a user-level match, which
+            # for a callee with nested awaits is in the MIDDLE of its body (after its first nested
+            # call, before the later ones), not after it ran; the big-step model evaluates the
+            # pattern after the callee's run, which is the same moment only for leaf callees.
+            # (Found by seed 4 / the thorough tier; scheduling of internal events is C09's business.)
+            args = gen_args(rng, tgt, mvars + (gnames if use_globals and not _has_calls(tgt) else []), kind)
             syntax, args = pick_syntax(rng, args)
             form = "activate" if tgt["name"] == "act" else ("await" if only_await or _has_calls(tgt) else rng.choice(["await", "await", "start", "start"]))
         ret = rng.choice(["x", "loc", "tmp"]) if form == "await" and _has_return(tgt) and rng.random() < 0.6 else None
@@ -1932,7 +1938,7 @@ def run(tier, seed, replay=None):
         "correspondence_disagreements": n_bind_dis + n_prog_dis + n_act_dis + n_restart_dis,
         "oracle_violations": len(out.findings),
         "observations_outside_the_premise": {"counts": obs, "examples": obs_examples,
-            "text": "O1: surplus positional arguments are rejected only when the flow has no parameter or more than 2n are given; otherwise the callee runs with the first n, its context gains keys `$j`, and the caller waits forever (its FlowStarted match mentions `$n`). O2: a parameter given positionally and by name gets the positional value; the caller waits forever when the two values differ. O3: a named argument that is no parameter is ignored by the callee and leaves the caller waiting forever. O4: `$x = await f` where f ends without executing `return` fails the caller (ColangValueError on `.arguments.return_value`). O6: an activation that omits a parameter WITHOUT default is never identified with an earlier one (C08_obs_activation_omitted_without_default). O7: re-activating with equal values through another call form (e.g. `activate w $a=1` then `activate w 1`) reuses the instance, but the reference's FlowStarted event lacks the `$0` key the caller's match mentions, so the caller waits forever - same root cause as O5 (FlowStarted match carries the call arguments), removed by the same candidate patch; modelled, counted, not claimed. O1-O4 are not claimed or counted as violations: the property text presupposes a corresponding positional or named argument and a value given to `return`. O5 (KNOWN FINDING, well-formed call): the caller's FlowStarted match re-evaluates the call arguments when the event arrives, so a callee that changes a global used in an argument before it is started leaves the caller of `$x = await f(..)` waiting forever; reported through the oracle with signature " + O5_SIG + "; candidate repair fixes/C08-flowstarted-match.patch (not applied: it changes match specificity scores).",
+            "text": "O1: surplus positional arguments are rejected only when the flow has no parameter or more than 2n are given; otherwise the callee runs with the first n, its context gains keys `$j`, and the caller waits forever (its FlowStarted match mentions `$n`). O2: a parameter given positionally and by name gets the positional value; the caller waits forever when the two values differ. O3: a named argument that is no parameter is ignored by the callee and leaves the caller waiting forever. O4: `$x = await f` where f ends without executing `return` fails the caller (ColangValueError on `.arguments.return_value`). O6: an activation that omits a parameter WITHOUT default is never identified with an earlier one (C08_obs_activation_omitted_without_default). O7: re-activating with equal values through another call form (e.g. `activate w $a=1` then `activate w 1`) reuses the instance, but the reference's FlowStarted event lacks the `$0` key the caller's match mentions, so the caller waits forever - same root cause as O5 (FlowStarted match carries the call arguments), removed by the same candidate patch; modelled, counted, not claimed. O5 variant (seed 4): when the callee has nested awaits the match is evaluated in the middle of its body; if the global is changed there and restored before the callee finishes, the caller does not hang but FAILS (FlowFinished cross-matches its still waiting FlowStarted pattern) - same root cause, same candidate repair; such programs are outside the generated fragment (arguments mention globals only for leaf callees). O1-O4 are not claimed or counted as violations: the property text presupposes a corresponding positional or named argument and a value given to `return`. O5 (KNOWN FINDING, well-formed call): the caller's FlowStarted match re-evaluates the call arguments when the event arrives, so a callee that changes a global used in an argument before it is started leaves the caller of `$x = await f(..)` waiting forever; reported through the oracle with signature " + O5_SIG + "; candidate repair fixes/C08-flowstarted-match.patch (not applied: it changes match specificity scores).",
             "flowstarted_match_carries_call_arguments": _flags()},
     })
     out.assumptions += [
@@ -1941,6 +1947,7 @@ def run(tier, seed, replay=None):
         "the restart of an activated flow on an external event (finish, StartFlow built by start_event, new instance) is exercised end to end by family T with the oracle only (event stepping is outside the big-step model of BindRun.v); what the restart event binds is proved (C08_restart_binds_original_call) and tied at function level (check_restart on the real start_event() arguments)",
         "freshness of default VALUES (each instance that omits an argument gets an independent value, also across conversations in one process; non-constant default expressions are evaluated per instance) is observable only through in-place mutation, i.e. heap behaviour: it is covered by the oracle alone (family M: `($bag.append(..))`, `($d.update(..))`, recursion, `\"t_{uid()}\"` defaults, two conversations in one process), not by the Coq model, where `default_val` is re-evaluated per instance by construction",
         "signatures have distinct identifier parameter names that are not keys the runtime writes itself (flow_id, flow_instance_uid, activated, source_flow_instance_uid, source_head_uid, flow_hierarchy_position, context) and return members distinct from parameters",
+        "call arguments mention a global only when the callee is a leaf flow (no nested calls): for a callee with nested awaits the caller's FlowStarted match is evaluated in the middle of the callee's body, a timing of internal events that the big-step model does not represent (generator restricted to the fragment the model covers)",
         "end-to-end programs are deterministic and single-threaded: callees run until they finish or reach `match Never()`; the big-step interpreter of V2/BindRun.v is validated against the real interpreter on exactly this class (scheduling in general is the business of C05/C09/C10)",
         "floats are quarters (exact); strings avoid quote, backslash, braces and `$` (string interpolation is outside C08)",
         "a dict read through a variable is an AttributeDict object; the matcher's isinstance asymmetry between dict and AttributeDict is not modelled - it is reachable only outside the premise (one parameter bound by two different expressions of equal dict value), found by the thorough tier and excluded from generation",
